@@ -48,6 +48,7 @@ type obs struct {
 	Calls  string // ordered host-call trace
 	Stdout string
 	Debug  string
+	held   *val.Val // the returned value itself: must still render the same when the history is over
 }
 
 func (o obs) String() string {
@@ -184,6 +185,7 @@ func valObs(o *obs, v *val.Val, err error) {
 	o.Class = "ok"
 	o.Value = render(v)
 	o.Text = v.String()
+	o.held = v
 }
 
 type pkey struct {
@@ -472,6 +474,18 @@ func runHist13(h *Hist13, x *evalCtx) hist13Result {
 		}
 	}
 	res.Sim = simrt.Run(h.Sim, body)
+	// a value handed back to the caller is the caller's: later operations must not change it
+	for i := range got {
+		if got[i].held != nil && res.Viol == nil {
+			if now := render(got[i].held); now != got[i].Value {
+				res.Viol = &Violation{"mutated", "c13:result-changed-later:" + h.Ops[i].K,
+					fmt.Sprintf("op %d: the value returned to the caller rendered %s when it was returned and %s after the rest of the history ran", i, clip(got[i].Value), clip(now))}
+			}
+		}
+	}
+	if res.Viol != nil {
+		return res
+	}
 	if res.Sim.TaskPanics[0] != nil {
 		if simrt.IsAbort(res.Sim.TaskPanics[0]) {
 			res.Viol = &Violation{"stall", "c13:stall", "step cap exceeded inside a history"}
